@@ -254,6 +254,21 @@ func (cs *checkerSet) c02Tx(c *TxCtx) *core.Violation {
 	r := cs.r
 	h := c.Height
 	s := c.After
+	if c.OK {
+		// what the records say was paid out (withdrawn) is what the payees' bank balances received
+		if exp, problems := moneyFlows(c); len(problems) == 0 {
+			for _, a := range c.W.Actors {
+				want := exp[a.Bech]
+				if want == nil {
+					want = new(big.Int)
+				}
+				if got := bankDelta(c, a.Bech); got.Cmp(want) != 0 {
+					return r.Flag("C02/receipt-ne-recorded-payout", "%s: %s's bank balance changed by %s, the escrow records of this transaction (withdrawals, refunds, deposits) imply %s",
+						c.Op.Kind, a.Name, got, want)
+				}
+			}
+		}
+	}
 	perAcct := map[string]*big.Int{}
 	for _, k := range keysOf(s.Payments) {
 		p := s.Payments[k]
